@@ -54,7 +54,17 @@ def make_problem(variant, goals_spec, script):
         g = G()
         if empty or prio_kind(prio) % 2 == 0:
             g.function_range = (-100.0, 100.0)
-        if empty:
+        if empty in (2, 3):
+            # "no finite target anywhere": -inf / +inf count like NaN (no bound on that side)
+            lo = np.array([-np.inf, np.nan if empty == 3 else -np.inf, -np.inf])
+            hi = np.array([np.inf, np.inf, np.nan if empty == 3 else np.inf])
+            if path:
+                g.target_min = Timeseries(np.array([0.0, 1.0, 2.0]), lo)
+                if prio_kind(prio) % 3 != 0:
+                    g.target_max = Timeseries(np.array([0.0, 1.0, 2.0]), hi)
+            else:
+                g.target_min = Timeseries(np.array([0.0, 1.0, 2.0]), np.full(3, np.nan))
+        elif empty:
             if path:
                 g.target_min = Timeseries(np.array([0.0, 1.0, 2.0]), np.full(3, np.nan))
             else:
@@ -106,9 +116,10 @@ def prio_kind(p):
     return int(abs(Fraction(p)) * 2)
 
 
-def run_impl(variant, goals_spec, script):
+def run_impl(variant, goals_spec, script, quiet=False):
     p, log, hooks = make_problem(variant, goals_spec, script)
-    ret = p.optimize()
+    # how a failure is logged must not change what the loop does
+    ret = p.optimize(log_solver_failure_as_error=False) if quiet else p.optimize()
     # assemble the trace: Started p ; Solve p ok ; Completed p ; Post
     trace = []
     solve_i = 0
@@ -161,8 +172,10 @@ def gen_goal_sets(rng, n):
         for i in range(k):
             p = rng.choice([rng.randint(-4, 6), Fraction(rng.randint(-9, 13), 2), Fraction(rng.randint(-9, 13), 4)])
             path = rng.random() < 0.5
-            gs.append((p, path and rng.random() < 0.2, path))
+            gs.append((p, rng.choice([True, 2, 3]) if path and rng.random() < 0.25 else False, path))
         out.append(gs)
+    out.append([(1, False, True), (2, 2, True), (3, False, False)])
+    out.append([(1, False, False), (2, 3, True), (2, 2, True), (4, False, True)])
     return out
 
 
@@ -191,10 +204,11 @@ def run(ctx):
                 for s in scripts:
                     cases.append((v, gs, list(s)))
     rows = []
-    for v, gs, s in cases:
-        impl, consistent, nsolves = run_impl(v, gs, s)
-        rows.append(dict(variant=v, goals=[[str(Fraction(p)), e, pa] for p, e, pa in gs], script=s, impl=impl,
-                         consistent=consistent, gq=[(Fraction(p), e) for p, e, _ in gs]))
+    for ci, (v, gs, s) in enumerate(cases):
+        quiet = ci % 3 == 1
+        impl, consistent, nsolves = run_impl(v, gs, s, quiet)
+        rows.append(dict(variant=v, goals=[[str(Fraction(p)), e, pa] for p, e, pa in gs], script=s, impl=impl, quiet=quiet,
+                         consistent=consistent, gq=[(Fraction(p), bool(e)) for p, e, _ in gs]))
     gl = lambda r: glist(r["gq"], lambda g: "(%s, %s)" % (gq(g[0]), gbool(g[1])))  # noqa: E731
     # goals() are listed before path_goals() by the code (itertools.chain); order is irrelevant to prios
     models = core.eval_terms(ID, ["GpLoop"], ["run_case %s %s" % (gl(r), glist(r["script"], gbool)) for r in rows])
@@ -207,7 +221,7 @@ def run(ctx):
         ctx.count("ret_%d" % r["impl"][0])
         if nontriv:
             ctx.sample({"variant": r["variant"], "goals": r["goals"], "script": r["script"], "impl": r["impl"], "model": m})
-        rep = {"variant": r["variant"], "goals": r["goals"], "script": r["script"], "impl": r["impl"],
+        rep = {"variant": r["variant"], "goals": r["goals"], "script": r["script"], "impl": r["impl"], "log_solver_failure_as_error": not r["quiet"],
                "model": m, "spec": sp, "hook_consistency": r["consistent"]}
         if r["impl"] != sp or not r["consistent"]:
             ctx.violation("gploop/spec-mismatch", rep,
